@@ -24,7 +24,7 @@ logging.disable(logging.WARNING)
 THEOREMS = ['Pylx.C04_step', 'Pylx.C04_first_rule', 'Pylx.C04_concat', 'Pylx.C04_concat_str', 'Pylx.C04_exceptions',
             'Pylx.C04_terminates', 'Pylx.C04_ascii_untouched', 'Pylx.C04_partial', 'Pylx.C04_partial_no_keep',
             'Pylx.C04_partial_exceptions', 'Pylx.C04_concrete_noRaise', 'Pylx.C04_asis_partial_raises', 'Pylx.C04_asis_del_not_passed']
-RULE = ('ENC: encoder configurations (rule lists mixing dict / regex-combinator / callable-family rules with overlapping matches and '
+RULE = ('ENC: encoder configurations (rule lists mixing dict / regex-combinator / callable-family rules - including a rule that calls unicode_to_latex re-entrantly on the encoder object it is handed - with overlapping matches and '
         'multi-character consumption, protection scheme global and per rule, unknown-character policy, non_ascii_only, chunk-list and '
         'str result classes, PartialLatexToLatexEncoder with several keep sets) x strings (every character of both built-in tables, '
         'all ASCII, control, combining, astral, unassigned, NFC-unstable, LaTeX token soups, random mixtures); sig = outcome + set of '
@@ -120,6 +120,17 @@ def fam_fn(f, u2l=False):
             if s[pos] == c:
                 return (n, repl)
             return None
+    elif name == 'nested':
+        # a rule that encodes the text between two marks by a RE-ENTRANT call on the encoder it is given (documented `u2lobj`
+        # argument): `<<inner>>` -> pre + u2lobj.unicode_to_latex(inner) + post
+        pre, post = f[1], f[2]
+        def fn3(s, pos, u2lobj):
+            sp = _nested_span(s, pos)
+            if sp is None:
+                return None
+            r = u2lobj.unicode_to_latex(s[pos+1:sp-1])
+            return (sp - pos, pre + (''.join(r.chunks) if isinstance(r, ChunkList) else str(r)) + post)
+        return fn3
     else:
         raise ValueError(name)
     if u2l:
@@ -128,6 +139,45 @@ def fam_fn(f, u2l=False):
             return fn(s, pos)
         return fn2
     return fn
+
+NEST_O, NEST_C = '\u00ab', '\u00bb'
+
+def _nested_span(s, pos):
+    """end (exclusive) of NEST_O [^NEST_O NEST_C]* NEST_C starting at pos, or None"""
+    if pos >= len(s) or s[pos] != NEST_O:
+        return None
+    j = pos + 1
+    while j < len(s) and s[j] not in (NEST_O, NEST_C):
+        j += 1
+    if j >= len(s) or s[j] != NEST_C:
+        return None
+    return j + 1
+
+def has_nested(case):
+    return any(r['t'] == 'F' and r['f'][0] == 'nested' for r in case['rules'])
+
+def expand_nested(case, sn):
+    """the case with every re-entrant rule replaced by literal startsWith rules for the occurrences in sn; the inner text
+    is encoded by a FRESH encoder of the same configuration (by the rule semantics a re-entrant call returns just that)"""
+    if not has_nested(case):
+        return case
+    lits = []
+    for p in range(len(sn)):
+        e = _nested_span(sn, p)
+        if e is not None and sn[p:e] not in lits:
+            lits.append(sn[p:e])
+    inner = {}
+    for l in lits:
+        inner[l] = str(build_encoder(case).unicode_to_latex(l[1:-1]))
+    rules = []
+    for r in case['rules']:
+        if r['t'] == 'F' and r['f'][0] == 'nested':
+            for l in lits:
+                rules.append({'t': 'F', 'prot': r.get('prot'), 'f': ['startsWith', l, r['f'][1] + inner[l] + r['f'][2]], 'u2l': True})
+        else:
+            rules.append(r)
+    d = dict(case); d['rules'] = rules
+    return d
 
 def build_rules(case):
     from pylatexenc import latexencode as le
@@ -246,6 +296,7 @@ def spec_run(case, s, ascii_limit=128):
     """Expected chunk list and outcome from the step rule; s is NFC-normalised.
     Returns (chunks, exc, branches, steps) with exc None | ('ValueError', ch).
     ascii_limit=127 restates the unrepaired `ord < 127` test; it is used only to *name* a failure."""
+    case = expand_nested(case, s)
     chunks = []
     branches = set()
     p = 0
@@ -494,6 +545,7 @@ def to_line(c):
     if c['k'] != 'enc':
         return None
     sn = unicodedata.normalize('NFC', c['s'])
+    c = expand_nested(c, sn)
     alpha = sorted(set(ch for t in _texts_of_case(c, sn) for ch in t if ord(ch) > 127 and ch.isalpha()))
     part = '-'
     if c.get('partial') is not None:
@@ -702,6 +754,23 @@ def cases(tier, rng):
         cfgp = rand_prot(rng); cfgq = rand_pol(rng); nao = rng.random() < 0.25
         for _ in range(3):
             yield enc(rand_string(rng, rng.randint(0, 12), extra), rules, prot=cfgp, pol=cfgq, nao=nao)
+    # 5b. re-entrant rules: a callable rule that calls unicode_to_latex on the encoder object it is handed
+    n5b = 600 if quick else 8000
+    for _ in range(n5b):
+        nest = {'t': 'F', 'prot': rng.choice([None, None, 'none', 'braces-all']), 'f': ['nested', rng.choice(['\\enquote{', '<', '{\\q ', '']), rng.choice(['}', '>', '', '}'])], 'u2l': True}
+        others = [rand_rule(rng) for _ in range(rng.choice([0, 1, 2]))] + [rng.choice([B_DEF, B_XML])]
+        k = rng.randint(0, len(others))
+        rules = others[:k] + [nest] + others[k:]
+        pol = rng.choice([q for q in POLS if q != 'fail'])
+        for _ in range(2):
+            parts = []
+            for _ in range(rng.randint(1, 4)):
+                parts.append(rand_string(rng, rng.randint(0, 4)))
+                parts.append(NEST_O + rand_string(rng, rng.randint(0, 5)).replace(NEST_O, '').replace(NEST_C, '') + NEST_C)
+            parts.append(rand_string(rng, rng.randint(0, 3)))
+            s = ''.join(parts)
+            yield enc(s, rules, prot=rand_prot(rng), pol=pol, nao=rng.random() < 0.2,
+                      partial=({'keep': rng.choice(KEEPS)} if rng.random() < 0.2 else None))
     # 6. partial encoder: token soups
     kmax = 2 if quick else 3
     for n in range(1, kmax + 1):
